@@ -16,6 +16,8 @@ import (
 	"time"
 
 	"git.sr.ht/~adrian-blx/psa-dhcp/lib/client"
+	"git.sr.ht/~adrian-blx/psa-dhcp/lib/dhcpmsg"
+	"git.sr.ht/~adrian-blx/psa-dhcp/lib/client/dclient"
 	"git.sr.ht/~adrian-blx/psa-dhcp/lib/ifmon"
 	"git.sr.ht/~adrian-blx/psa-dhcp/lib/libif"
 	"git.sr.ht/~adrian-blx/psa-dhcp/lib/rsocks"
@@ -318,7 +320,7 @@ func (w *cWorld) onSend(f rsocks.Frame) {
 		sender := binary.BigEndian.Uint32(f.Payload[14:18])
 		target := binary.BigEndian.Uint32(f.Payload[24:28])
 		answer := func(mac []byte, d time.Duration) {
-			reply := make([]byte, 28)
+			reply := make([]byte, []int{28, 46, 46, 60}[w.r.Intn(4)]) // as on a real wire: padded to the Ethernet minimum, or not
 			copy(reply, []byte{0, 1, 8, 0, 6, 4, 0, 2})
 			copy(reply[8:14], mac)
 			binary.BigEndian.PutUint32(reply[14:], target)
@@ -595,4 +597,51 @@ func TestC15One(t *testing.T) {
 	var s int64
 	fmt.Sscan(os.Getenv("VERIF_ONE"), &s)
 	runClientScript(t, c, vl, s)
+}
+
+// TestC15Deadlines: T1 / T2 / expiry as the real runStateBound computes them for a stored reply (hook VerifRunStateBound; the
+// context is cancelled, so the sleep until T1 returns at once), against the model's deadlines (tag 1503) for leases from one
+// minute to the infinite lease and absent / consistent / inconsistent server-supplied timers.
+func TestC15Deadlines(t *testing.T) {
+	c := newCaseWriter(t, "c15dl")
+	defer c.close(t, "c15dl")
+	r := newRand(1503)
+	leases := []uint32{60, 61, 62, 63, 119, 120, 600, 3599, 3600, 86400, 1 << 20, 1286742, 1286743, 1286744, 9007199, 9007200, 1 << 24, 31536000, 1 << 30,
+		658812288, 658812289, 1317624576, 1317624577, 1 << 31, 1<<31 + 1, 3 << 30, 0xfffffffe, 0xffffffff}
+	for i := 0; i < scale(400, 20000); i++ {
+		lease := leases[i%len(leases)]
+		if i >= 4*len(leases) {
+			lease = 60 + uint32(r.Int63n(int64(0xffffffff-60)))
+			if r.Intn(2) == 0 {
+				lease = 60 + uint32(r.Intn(1<<uint(5+r.Intn(27))))
+			}
+		}
+		var t1, t2 uint32
+		switch (i / len(leases)) % 4 {
+		case 1: // consistent
+			t1 = 61 + uint32(r.Int63n(int64(lease)))
+			t2 = t1 + 1 + uint32(r.Int63n(int64(lease)))
+		case 2: // one of the conditions fails narrowly
+			t1, t2 = []uint32{60, 61, lease / 2, lease - 1}[r.Intn(4)], []uint32{lease, lease - 1, lease + 1, lease / 2}[r.Intn(4)]
+		case 3:
+			t1, t2 = r.Uint32(), r.Uint32()
+		}
+		synctest.Test(t, func(t *testing.T) {
+			ctx, cancel := context.WithCancel(context.Background())
+			cancel()
+			iface := &net.Interface{Index: 1, Name: "dl0", HardwareAddr: net.HardwareAddr{2, 0, 0, 0, 0, 1}}
+			dx := dclient.New(ctx, iface, log.New(io.Discard, "", 0), nil, nil)
+			o := dhcpmsg.DecodedOptions{IPAddressLeaseDuration: time.Duration(lease) * time.Second,
+				RenewalDuration: time.Duration(t1) * time.Second, RebindDuration: time.Duration(t2) * time.Second}
+			dx.VerifSetLast(dhcpmsg.Message{YourIP: net.IPv4(10, 0, 0, 9)}, o)
+			now := time.Now()
+			dx.VerifRunStateBound()
+			a, b, x := dx.VerifDeadlines()
+			off := func(d time.Time) uint64 { return uint64(d.Sub(now)) }
+			if a.Before(now) || b.Before(a) || x.Before(b) {
+				// durations that do not fit uint64 print as huge numbers: still a mismatch on this line
+			}
+			c.add(1503, "deadlines", true, args(L{uint64(lease) * 1e9, uint64(t1) * 1e9, uint64(t2) * 1e9}), args(L{off(a), off(b), off(x)}))
+		})
+	}
 }
